@@ -55,6 +55,16 @@ CLAIMED = {
          "36 applications (end node at depth 0-2; graceful with/without last value, abnormal before/after input handling, external TERMINATE, CROAK; client flag set earlier or not) x all histories of 7 (quick) / 9 (thorough) requests over {1,0,junk} x {persisted-mem, persisted-fs, long-lived}: final output, stop flag, empty cache and kept client flags after a graceful end, re-entry at the entry node with LOADs re-run, and complete silence (zero instructions by hook count) of every request after an abnormal or forced end.",
          "Trusted: ref.VM. The Postgres-fake backend is added to the backend list when available.",
          "DESIGN.md §4 C20"),
+ "C16": ("translation_validation",
+         "exhaustive enumeration of assembly sources generated from an AST over argument pools, assembled by asm.Parse (and the dev/asm command), decoded by the harness's strict decoder and compared field by field with the AST",
+         "All single lines over the argument pools (every opcode and batch keyword; selectors with leading zeros, letters after digits, wildcard, mixed case; all numeric widths), all programs of 2-3 (quick) / 2-4 (thorough) lines over a 40-line pool, all orders of up to 3 / 4 batch lines, several menus per source, 255/256-byte symbols, each in six layouts, plus 186 sources through the dev/asm command with and without the flag-name preprocessor: output must decode to exactly the written instructions with batch groups expanded to the documented pattern.",
+         "Trusted: the harness's own assembly printer (follows instructions.texi) and strict decoder. An error return is asserted only for line forms the repository's own tests/examples assemble.",
+         "DESIGN.md §4 C16"),
+ "C17": ("model_checking",
+         "exhaustive enumeration of (valid history, insertion position, refused input, client style, operation mode) on the real engine; two-run comparison against the history without the refused input",
+         "Five applications (incl. one with a WithFirst function and a paginated sink mid-browse) x all valid histories up to depth 2 (quick) / 3 (thorough) x every insertion position x nine refused inputs (pattern failures, control bytes, 256 and 300 bytes) x three client behaviours after the refusal x {long-lived, persisted-mem, persisted-fs}: the refused request errors, runs no application code and no instruction, the stored snapshot is unchanged, and every other request is identical to the run without it; Flush before Exec is refused without effect.",
+         "Trusted: nothing beyond the engine's own behaviour on the undisturbed history (differential oracle).",
+         "DESIGN.md §4 C17"),
 }
 
 NOT_YET = {}
